@@ -249,6 +249,8 @@ theorem packCompressed_big (Z : ZLib) (H : Z.Contract) (t : Int) (id : BitVec 32
   generalize hk : (leb (dl.length + z.length)).length = k
   have hk5 : k ≤ 5 := by rw [← hk]; exact leb_length_le5 (by omega)
   have hk1 : 1 ≤ k := by rw [← hk]; exact leb_length_pos _
+  have hnp : ¬ (5 < k) := by omega
+  rw [if_neg hnp]
   have e1 : List.drop (5 - k) (List.replicate 5 0#8 ++ dl ++ z) = List.replicate k 0#8 ++ (dl ++ z) := by
     rw [List.append_assoc, List.drop_append_of_le_length (by simp), List.drop_replicate]
     congr 2; omega
